@@ -266,6 +266,9 @@ def setAdd (s : List Int) (x : Int) : List Int := if s.contains x then s else s 
 /-- `d.get(k)` -/
 def mapGet (d : List (Int × Int)) (k : Int) : Option Int := (d.find? (·.1 = k)).map (·.2)
 
+/-- `_opt_or(x, d)` of the corpus: `d if x is None else x` -/
+def optOr (x : Option Int) (d : Int) : Int := match x with | some v => v | none => d
+
 /-- the `Lru` object of the corpus: `__limit`, `__order` (a deque), `__table` (a dict) -/
 structure LruState where
   limit : Int
